@@ -56,7 +56,7 @@ def series(spec):
 
 
 def build(x, y, periods, gc=1, gt=1, cost_c=None, cost_t=None, extra_geo=False, extra_dates=None, order='sorted',
-          names=None, labels=None, start=START):
+          names=None, labels=None, start=START, period_labels=None):
     """Long frame.  extra_dates: list of (where, period_label) with where in {'lead','gap','trail'}."""
     names = dict({'date': 'date', 'geo': 'geo', 'group': 'group', 'period': 'period', 'response': 'response', 'cost': 'cost'},
                  **(names or {}))
@@ -76,6 +76,8 @@ def build(x, y, periods, gc=1, gt=1, cost_c=None, cost_t=None, extra_geo=False, 
             seq = seq[:k] + [item] + seq[k:]
     rows = []
     for i, (per, xv, yv, cc, ct) in enumerate(seq):
+        if period_labels is not None:
+            per = period_labels.get(per, per)
         date = pd.Timestamp(start + datetime.timedelta(days=i))
         for g, f in enumerate(SPLITS[gc]):
             r = {names['date']: date, names['geo']: 10 + g, names['group']: labels['control'], names['period']: per,
